@@ -12,1159 +12,1153 @@ Definition show_fres (r : fres) : string :=
   end.
 Definition check (rs : list rune) : string := digest (show_fres (format_res rs)).
 Definition full (rs : list rune) : string := show_fres (format_res rs).
-Eval vm_compute in ("<<<M1901>>>" ++ check (runes_of_ascii "options {
-	BodyLength =
-    3 ;	// " ++ [128512]%N ++ runes_of_ascii " emoji
-  T =""packet"" 
-	// @lengthOf(
-	// trailing space 
-    ;
+Eval vm_compute in ("<<<M1758>>>" ++ check (runes_of_ascii "
 
-    // c
-  // trailing space 
-	crc  =
-	true 
-; 
-falsey
-    =
-    '\x00' 	 /// triple
-    ;
+  root
 
-}
-root	packet
+    packet u
 
-A 
-{
-@leftPad( '0')	char[	65535
-
-] Header	`" ++ [233]%N ++ runes_of_ascii "` ,
-
-@rightPad
-('0' )  //
-      a1 @lengthOf(
-
-msg_type )	,	@lengthOf(
-
-rootA )match
-    _x as 	 //x
-
-stringy 
-{
-
-""CRC32""
-:chars ,  3 	 // `tick` ""quote"" 'q'
-  :
-
-float, 255
-
-:
-	asx// `tick` ""quote"" 'q'
-,
-
-10	:	tag
-,	//
-	}
-    ,
-@calculatedFrom(""" ++ [128512]%N ++ runes_of_ascii """
-	)u32 u8x `crlf
-line`	,
-	repeat char[]asx
-
-    `a\`, @rightPad
-	(  '0')match
-	f32a
-	as
-
-    Packet{[
-    255
-,
-
-""CRC32"" ,
-	007  ,
-
-    ""1""
-,
-
-""packet""
-	,
-	00,
-
-4294967296
-] :
-	calculatedFrom
-
-,
-""packet""  : falsey	,  ""a\""b"" 
-:
-body
-,	7  // a // b
-		:Packet // " ++ [128512]%N ++ runes_of_ascii " emoji
-    0123456789  :
-i64_,
-	// a // b
-  [
-4294967296 
-,
-
-0123456789
-
+{ 
+char[
+007
 ]
+    x_y_z `two words`
+	,int16
+    u8x 
+@calculatedFrom(	""packet""
 
-    : // `tick` ""quote"" 'q'
-    options1	}
-	, crc  /// triple
-  @lengthOf( Foo	),@calculatedFrom(""{,}""	)  @lengthOf(  metadata
+    ) 
+// @lengthOf(
+	  ,
 
-    ) @lengthOf(  i8i8 )
-int64
-options1
-
-@calculatedFrom( ""CRC32""
+float64
+falsey	@calculatedFrom( ""\" ++ [233]%N ++ runes_of_ascii """
     )
-    `line1
-line2`
-, // @lengthOf(
-
-}
-	packet
-a1 // `tick` ""quote"" 'q'
-{
-
-match lengthOf//
-  as x_y_z{ ""it's"" 
-:
-    matchKey
-    //
-    // @lengthOf(
-  ,  10
-
-:	Packet
-
-    ,	[  //x
-  ""abc""	]// a // b
-
-: A
-10	//x
-	: metadata ,
-	}	,
-
-    }
-    MetaData body {
-	char string_  , char[]
-x, len
-
-    Pad,
-string 
-leftPad
-	, 
-}	// trailing space 
-")).
-Eval vm_compute in ("<<<M1650>>>" ++ check (runes_of_ascii "
-// top
-  	options 
-// c0
-	{// c1a
-
-	// c1b
-	LittleEndian 
-
-// c2
-	=
-true // c4a
-      // c4b
-    ;
-// c5
-StringPrefixLenType
-= 
-// c7
-  u16// c8
-	; 	 // c9a
-// c9b
-	FixedStringPadChar// c10
-	  =  // c11
-  ' '
-// c12
-
-;
-	    // c13
-} 	 // c14
-		packet// c15a
-
-// c15b
-
-Logon
-
-{ // c17a
-  	// c17b
-    @leftPad (
-
-    '0')// c21
-	char[	// c22a
-      // c22b
-	10 	 // c23
-    ] 	 // c24
-	tag7  // c25a
-	// c25b
-	  ,  
-  // c26
-    }  // c27a
-
-	// c27b
-    	root packet 
-
-    // c29
-Ack  // c30a
-// c30b
-
-{
-
-    int32	// c32
-Px 
-,  // c34
-  uint16  
-      // c35
-    count 	 // c36
-, 
-
-// c37
-	  string// c38a
-    // c38b
-	Qty 
-// c39
-, // c40a
-	// c40b
-    string 	 // c41a
-    // c41b
-    	OrderId  // c42
-,	string
-
-Flags	// c45a
-      // c45b
-,
-	// c46
-	u8// c47a
-	// c47b
-	x // c48a
-
-  // c48b
-		,  // c49a
-// c49b
-	match  // c50
-  x  // c51
-  	as
-    // c52
-	  Body 
-
-// c53
-	{	// c54
-  [	// c55a
-      // c55b
-
-58  // c56
-
-, 	 // c57
-  169  // c58a
-      // c58b
-	  ]// c59
-    : 
-Logon
-	,  // c62a
-  	// c62b
-
-}  // c63
-    , 
-  // c64
-} 
-
-// c65
-")).
-Eval vm_compute in ("<<<M1343>>>" ++ check (runes_of_ascii "  options { 
-StringPrefixLenType
-= u64
-
-; ArrayPrefixLenType=	u32
-    ;  FixedStringPadFromLeft =
-    false
-;
-    } packet
-Party{ 
-zchar[
-7]OrderId
-, InTail6{
+	`u8 x,`	,	trueish
+@calculatedFrom(""" ++ [233]%N ++ runes_of_ascii "t" ++ [233]%N ++ runes_of_ascii """  )  `tab	here`	,
+    @tag( 1
+)
 
     repeat
-char[
-1  ] 
-msgKind	,char[
 
-    3]
-Tail ,char[ 
-3 ]
-
-    Flags	,
-i16
-tag7	, 
-}
-
-,@rightPad
-
-    ('0'
-)
-
-    char[
-
-12 ]clOrdID
-	,}
-	packet	Quote
-    {@leftPad
-('0' 
-)
-    char[
-	11]
-price ,repeat  InCount7  { i32
-    x
-,Party,u8  Ref
-
-    , u8 tag7
-, 
-} ,
-	char[]	seqNo
-	,
-
-    Party, } packet  Logon
-{@rightPad(
-
-    '\x00'
-	)
-char[
-    5
-
+char[ 4294967296
 ]
-	Note,
+// " ++ [128512]%N ++ runes_of_ascii " emoji
+	u, match
 
-i16
-    sym
+// " ++ [27880; 37322]%N ++ runes_of_ascii "
+  i8i8
+//
 
-    ,InPrice72{char[	9 ]  Ref
-, zchar[ 1 ]
-    venue , } ,
-    char[]
+as	// " ++ [128512]%N ++ runes_of_ascii " emoji
+  o  {[ ""a\\"" ]	: 
+matchKey 
+, [ 0123456789
+	//x
 
-    clOrdID 
-,	}
-	root
-packet
-Reject {
-    repeat Logon
-
+,	""x y""
+    ,0
+    , 
+      /// triple
+	/// triple
+  00
+	, 
+""a	b""
 ,
-@leftPad	( ' '
-	)
-    char[
-4
-] seqNo,
-zchar[ 5]
-    Acct
+    ""{,}""	, 	 // a // b
+
+	""{,}"" ,  007	]
+	: 
+u8x
+,
+	255 : u128,
+    [
+    """ ++ [28040; 24687]%N ++ runes_of_ascii """  ,  0123456789
+
+    , 65535
 
     ,
-	u32
+    // a // b
+	""\n"" ] : _x
+,
+7 :falsey
 
-    x,
-    u16
-	f1	@lengthOf(
+    } ,@leftPad	()// " ++ [128512]%N ++ runes_of_ascii " emoji
+    	charz
 
-Body )	, match
+@lengthOf(  A )
+	,	// `tick` ""quote"" 'q'
+    }
 
-x
+root  packet 
+stringy { 
+repeat MetaDataX {
 
-as
-Body
+float32 
+T , string
+
+    x_y_z
+
+    `a\`  ,  repeat
+
+    _x
+
+zchar	`u8 x,` ,
+},} packet
+
+    Foo {@lengthOf(
+roots)
+	calculatedFrom a1
+	, zchar[0123456789 ]_x  ,
+        // @lengthOf(
+    // trailing space 
+  match  //
+    roots as MetaDataX  // c
+	{/// triple
+	  42	: _x
+,3  // a // b
+:
+
+    msg_type
+7
+
+:
+    a1  , 
+"""" :
+
+i8i8
+	,  //x
+	[
+
+""" ++ [233]%N ++ runes_of_ascii "t" ++ [233]%N ++ runes_of_ascii """
+]	:i8i8
+,
+	00:	leftPad , },
+    @calculatedFrom( 	 // @lengthOf(
+	"""")  char[
+	00	// c
+]
+Foo  @lengthOf(
+
+    uint8x
+	) 
+,
+
+f32
+chars
+	, }
+    packet  metadata
+    //	t
+		{
+    } 
+MetaData i64_  // packet A { u8 x, }
+
 {
-[169,	74
-	] 
-:
-Quote
-, 
-45 :
-Party,7
 
-:
+    lengthOf
+	options1 ,
+	    // @lengthOf(
+  //x
 
-    Logon 
-, }
+a1	A , x
 
-    , }
+Header , 
+}
+
 ")).
-Eval vm_compute in ("<<<M1362>>>" ++ check (runes_of_ascii "options {
+Eval vm_compute in ("<<<M1507>>>" ++ check (runes_of_ascii "
+
+  // top
+    packet	// c0a
+		// c0b
+
+A 
+{ 	 // c2
+u8  // c3a
+	// c3b
+
+  a
+,	// c5
+	  } 	 // c6a
+  // c6b
+	packet// c7a
+	// c7b
+
+B
+	{ 
+    // c9
+  	u16  b  // c11
+,
+    }  // c13a
+  // c13b
+    packet  // c14
+	C 
+    // c15
+{
+// c16
+      u32 
+	    // c17
+	c 	 // c18
+	  , 	 // c19a
+	// c19b
+} 
+
+// c20
+    root	packet 	 // c22a
+
+// c22b
+	M	// c23
+  {  u16  Kc 
+        // c26
+
+  , 
+
+// c27
+u16 	 // c28a
+	  // c28b
+    Kb,  // c30
+	u16 Ka
+// c32
+    	,
+	match// c34a
+
+// c34b
+  Kc 	 // c35
+	as X
+    // c37
+	  {
+    // c38
+    9 	 // c39
+
+:
+        // c40
+
+A
+
+// c41
+  	,
+10	:
+
+// c44
+  B 
+    // c45
+, 
+    // c46
+}
+    ,
+	match 
+// c49
+	Kb// c50
+as	// c51a
+    // c51b
+Y// c52
+{
+    2 // c54a
+	// c54b
+  : 
+
+    // c55
+    	C  ,// c57
+      1 // c58
+  	:
+	A ,  // c61a
+  // c61b
+		} // c62
+,// c63a
+		// c63b
+	match 
+
+// c64
+    	Ka as  // c66
+Z  // c67
+    { 
+        // c68
+		1 // c69a
+// c69b
+	:
+
+B // c71a
+    // c71b
+, 	 // c72
+	} 	 // c73a
+    	// c73b
+	, // c74
+	A // c75a
+
+	// c75b
+    ,  // c76
+  B 
+        // c77
+  , 
+
+    // c78
+  	C 
+,// c80
+    	}
+")).
+Eval vm_compute in ("<<<M1627>>>" ++ check (runes_of_ascii "
+options
+{
+StringPrefixLenType	=u64
+
+    ; ArrayPrefixLenType
+
+    = u32
+
+;FixedStringPadFromLeft=
+false ; }
+
+    packet
+Party{
+zchar[
+
+7
+
+    ] OrderId
+, InTail6
+{	repeat
+char[  1
+    ]
+
+    msgKind
+	, char[
+
+    3 ]
+Tail , 
+char[3
+]Flags
+, 
+i16
+
+    tag7
+	, }
+, @rightPad
+
+( '0'
+
+    ) char[  12 ] 
+clOrdID
+	,  }
+packet
+
+    Quote
+
+    {
+
+@leftPad	(	'0' ) 
+char[ 
+11  ]
+
+price
+
+    , repeat InCount7 {	i32
+	x, Party ,u8 Ref ,
+	u8
+
+tag7
+	,
+}	, char[]
+    seqNo,
+Party,  }
+packet
+
+Logon {
+@rightPad  (
+'\x00')
+char[
+    5 ] 
+Note
+	, i16 
+sym , InPrice72 { 
+char[
+
+    9 ]
+Ref , zchar[
+
+    1  ]	venue, }
+
+    ,char[] 
+clOrdID , }
+	root
+	packet
+
+    Reject
+    {
+
+repeat	Logon 
+,
+    @leftPad
+
+    (	' ' )
+char[4 ]
+	seqNo ,
+    zchar[
+	5	]
+
+Acct,
+
+    u32 x , u16 f1
+    @lengthOf(	Body )	, match
+x as Body
+    {
+[
+    169 ,	74] : Quote
+	,
+    45 
+: 
+Party	, 
+7
+:	Logon
+,
+
+} ,
+}")).
+Eval vm_compute in ("<<<M1815>>>" ++ check (runes_of_ascii "root packet asx {
+    leftPad {
+        u128 @calculatedFrom(""1""),//x
+    },
+    lengthOf @calculatedFrom(""" ++ [128512]%N ++ runes_of_ascii """) `a\`,
+    i64 Packet @lengthOf(calculatedFrom),
+    @calculatedFrom(""" ++ [233]%N ++ runes_of_ascii "t" ++ [233]%N ++ runes_of_ascii """)
+    stringy a1 `doc`,
+    @rightPad()
+    // c
+    a1 `a\`,
+    char Header @lengthOf(x) `say ""hi""`,
+    uint8x Z9_ `tab	here`,
+}
+
+options {
+    calculatedFrom = 0
+}
+
+packet metadata {
+    @leftPad('\x00')
+    f32 pack,
+    @tag(65535)
+    u32 uint8x @lengthOf(repeatCount) ``,
+    MetaDataX {
+        repeat options1,
+        match matchKey as len {
+            """ ++ [128512]%N ++ runes_of_ascii """ : u8x,
+            1 : zchar,
+            /// triple
+            [""a\\"", ""x y""] : charz,
+            0 : x_y_z,
+            [4294967296] : asx,
+            [10, ""a\""b"", ""\n"", ""\" ++ [233]%N ++ runes_of_ascii """] : _x,
+        },
+        uint8 metadata @lengthOf(float),
+        zchar[255] i8i8,
+    },
+}
+
+root packet f32a {
+}")).
+Eval vm_compute in ("<<<M1773>>>" ++ check (runes_of_ascii "options {
+    StringPrefixLenType = u16;
+    ArrayPrefixLenType = u32;
     FixedStringPadFromLeft = true;
     FixedStringPadChar = '0';
 }
-packet Leg {
-    repeat InSym93 {
-        zchar[3] Acct,
-        string Side2,
-        i32 Flags,
-        f32 Note,
-        i32 msgKind,
-    },
-    f64 Note,
-    uint16 Px,
+
+packet Cancel {
 }
-packet Quote {
-    zchar[2] OrderId,
+
+packet Party {
 }
+
+packet Logon {
+}
+
 packet Ack {
-    repeat string lastPx,
-    zchar[4] price,
-    uint32 OrderId,
-    Quote,
-    int8 Acct,
 }
-packet Fill {
-    repeat Leg,
-    @rightPad('0') char[11] Note,
-    f64 Px,
-    @rightPad('\x00') char[5] Flags,
-    zchar[9] x,
-    string msgKind,
+
+packet Logout {
+    repeat InSym87 {
+        InClordid94 {
+            string clOrdID,
+        },
+        string Px,
+        i16 Qty,
+        repeat InCount71 {
+            repeat Cancel,
+            uint16 Tail,
+            char[2] x,
+            repeat string Ref,
+        },
+        Cancel,
+    },
 }
+
 root packet Order {
-    Leg,
-    repeat Ack,
-    @rightPad('\x00') char[3] Side2,
-    repeat char[1] seqNo,
-    u16 clOrdID,
-    match clOrdID as Body {
-        198 : Leg,
-        23 : Quote,
-        13 : Ack,
-        159 : Fill,
-    },
-    u32 venue @calculatedFrom(""CR\
-C32""),
-}
-")).
-Eval vm_compute in ("<<<M1680>>>" ++ check (runes_of_ascii "
-
-  options{
-	StringPrefixLenType 
-=
-
-u8
-
-;
-ArrayPrefixLenType 
-= u32;
-
-FixedStringPadFromLeft
-=
-    true ;
-    FixedStringPadChar =' ' ;}	packet
-    Leg { } packet
-    Heartbeat
-
-    { 
-zchar[
-	6 ] 
-msgKind ,@rightPad (
-'0')
-
-char[	3 ]Qty
-
-,
-
-zchar[  9
-]
-Side2
-, i8 
-Acct	,
-}
-
-packet
-	Logout
-{int8
-x
-
-    , 
-} packet
-Order  { 
-char[] Acct 
-,
-zchar[ 
-8]
-
-    count
-
-    ,
-u32	OrderId 
-,
-uint8	lastPx
-
-    ,u16 clOrdID
-	, zchar[
-7 ] 
-Note , }
-root 
-packet Reject{ 
-@leftPad
-( ' '  )  char[ 
-8 ] Side2 
-, i8
-	clOrdID ,repeat
-    f32  x
-    ,
-    u32
-lastPx , match
-
-    lastPx  as
-    Body	{ [	30,
-
-    147  ]
-
-    :
-    Heartbeat ,  134 :
-	Leg
-
-, 183:Logout,
-	40
-    :
-	Order,
-	},
-u16
-Ref
-@calculatedFrom( ""CRC32""
-
-    ), }
-
-")).
-Eval vm_compute in ("<<<M117>>>" ++ check (runes_of_ascii "// a // b
-packet	u128  {
-    repeat chars	{i64 u8x
-`
-`// a // b
-, // c
-_x
-@lengthOf(  falsey
-    )
-,
-    Logon
-`" ++ [28040; 24687; 31867; 22411]%N ++ runes_of_ascii "` ,repeat char[]
-trueish `tab	here` ,}
-    , } root packet T { match Packet
-as
-trueish {
-""packet"" : charz
-    ,
-    [4294967296 , ""1"" ] : A , 7 : x
-    // " ++ [27880; 37322]%N ++ runes_of_ascii "
-    , [
-    // a // b
-    7 ,""a	b""
-    ]
-:	u128 255 :
-As
-    3:
-Packet,} ,
-//	t
-// trailing space 
-pack
-`a\` , @calculatedFrom( """ ++ [233]%N ++ runes_of_ascii "t" ++ [233]%N ++ runes_of_ascii """ //	t
-)
-    rootA matchKey  ,
-char[ 65535]/// triple
-leftPad @lengthOf( roots
-    //
-    ) , repeat MetaDataX { u64
-    a1 @calculatedFrom(""x y"" ) `doc`  ,//	t
-uint8 falsey
-,
-match BodyLength as A
-{  [ ""\" ++ [233]%N ++ runes_of_ascii """,255 ,"""" ,
-    ""it's"" ] :	Foo ,
-3 : u128}	, } ,	}
-")).
-Eval vm_compute in ("<<<M208>>>" ++ check (runes_of_ascii "packet // packet A { u8 x, }
-u8x {}root packet
-    matchKey{
-repeat zchar[ 0123456789 ] // packet A { u8 x, }
-int , char[
-// `tick` ""quote"" 'q'
-// a // b
-4294967296 ]
-asx `{ , }`
-    ,
-repeat i8i8, repeat Packet { repeat
-    leftPad {	f32 u128
-@lengthOf(As ), body`two words` ,// packet A { u8 x, }
-rootA Pad , } , char[ 00
-] msg_type `tab	here` // " ++ [128512]%N ++ runes_of_ascii " emoji
-,
-    repeat
-    //x
-    i64_ `doc` , zchar x_y_z ,}
-,
-}
-root
-packet int {
-repeat f32a {repeat f32a  asx
-`u8 x,` ,} ,@lengthOf(
-// @lengthOf(
-//	t
-msg_type// packet A { u8 x, }
-) body ,
-// c
-//
-Z9_ // c
-zchar `a\` //x
-, } //x")).
-Eval vm_compute in ("<<<M1853>>>" ++ check (runes_of_ascii "options {
-    StringPrefixLenType = u8;
-    ArrayPrefixLenType = u8;
-    FixedStringPadFromLeft = false;
-    FixedStringPadChar = ' ';
-}
-
-packet Ack {
-    char[] tag7,
-}
-
-packet Reject {
-    InSym61 {
-        repeat Ack,
-        zchar[4] f1,
-    },
-}
-
-packet Logout {
-    char[4] clOrdID,
-}
-
-root packet Cancel {
+    repeat string tag7,
     @leftPad(' ')
-    char[10] price,
-    u8 x,
-    u32 venue @lengthOf(Body),
-    match x as Body {
-        [92, 175] : Logout,
-        26 : Reject,
-        144 : Ack,
+    char[3] Px,
+    u8 Qty,
+    match Qty as Body {
+        [28, 62] : Logon,
+        148 : Ack,
+        88 : Party,
+        184 : Cancel,
     },
-    u16 count @calculatedFrom(""CRC32""),
+    u16 Note @calculatedFrom(""CRC32""),
 }")).
-Eval vm_compute in ("<<<M340>>>" ++ check (runes_of_ascii "packet leftPad//
-{@rightPad () repeat chars	{crc /// triple
-pack  ,
-} ,
-@calculatedFrom( """ ++ [28040; 24687]%N ++ runes_of_ascii """ )@lengthOf(options1  )@tag( 65535 ) Foo,match
-matchKey
-    as // " ++ [128512]%N ++ runes_of_ascii " emoji
-tag	{
-    // c
-    [ ""{,}"",
-""""
-, ""`tick`"" ,
-3 ,""it's"",  """ ++ [128512]%N ++ runes_of_ascii """	,
-""it's""] :As
-    , [
-/// triple
-//	t
-""x y""]
-    //x
-    :
-chars,""" ++ [233]%N ++ runes_of_ascii "t" ++ [233]%N ++ runes_of_ascii """	:uint8x,4294967296:	packetx
-""// no comment""
-:
-calculatedFrom , }
-,  @calculatedFrom( ""// no comment""// @lengthOf(
-)
-char[// trailing space 
-007 ]	f32a ,} // a // b")).
-Eval vm_compute in ("<<<M1556>>>" ++ check (runes_of_ascii "packet metadata {
-    @rightPad()
-    zchar[0123456789] i64_ @calculatedFrom(""\n""),
-    @leftPad(' ')
-    zchar[255] MetaDataX `{ , }`,
-    @rightPad(' ')
-    @calculatedFrom(""abc"")
-    @lengthOf(matchKey)
-    repeat char[42] packetx `" ++ [233]%N ++ runes_of_ascii "`,
-    trueish @calculatedFrom(""packet"") `a\`,
-    matchKey int `" ++ [28040; 24687; 31867; 22411]%N ++ runes_of_ascii "`,
-    @tag(0)
-    len {
-        char[65535] Header,
-    },
-    @lengthOf(f32a)
-    zchar[10] trueish `crlf
-        line`,
-}")).
-Eval vm_compute in ("<<<M1789>>>" ++ check (runes_of_ascii "packet metadata {
-    //	t
-    float64 body @lengthOf(calculatedFrom),// a // b
-    @tag(42)
-    rootA,
-    x_y_z u8x `// not a comment`,
-    @lengthOf(Pad)
-    match packetx as leftPad {
-        //
-        65535 : tag,
-        """ ++ [128512]%N ++ runes_of_ascii """ : _x,
-    },
-    x_y_z metadata,
-    @tag(7)
-    int64 zchar @lengthOf(repeatCount) `" ++ [233]%N ++ runes_of_ascii "`,
-    @tag(0123456789)
-    repeat float chars,
-    f32 MetaDataX,
-}")).
-Eval vm_compute in ("<<<M1835>>>" ++ check (runes_of_ascii "
-packet  repeatCount{ @calculatedFrom(
-
-""abc""
-	)  zchar[  
-  // @lengthOf(
-0 
-]	// `tick` ""quote"" 'q'
-  MetaDataX
-
-`
-`,
-
-string_@calculatedFrom(""1""
-
-)
-	,	match	string_ as
-
-    msg_type 
-{
-
-    [  // a // b
-    65535
-,  // a // b
-""a	b""
-    ,7
-
-    ,  255
-]:matchKey
-	,  10  :
-options1 
-,3
-    :  Logon
-,
-
-    } ,
-    // " ++ [27880; 37322]%N ++ runes_of_ascii "
-	packetx 
-`a\`,
-} ")).
-Eval vm_compute in ("<<<M1326>>>" ++ check (runes_of_ascii "options {
-    LittleEndian = true;
-    StringPrefixLenType = u16;
-    FixedStringPadChar = ' ';
-}
-packet Logon {
-    @leftPad('0') char[10] tag7,
-}
-root packet Ack {
-    int32 Px,
-    uint16 count,
-    string Qty,
-    string OrderId,
-    string Flags,
-    u8 x,
-    match x as Body {
-        [58, 169] : Logon,
-    },
-}
-")).
-Eval vm_compute in ("<<<M262>>>" ++ check (runes_of_ascii "  packet  Logon
-    { o Header ,	Header
-, @lengthOf(
-u )	char[ 255 ] tag `tab	here`, char[]falsey ,
-    @lengthOf(	zchar )
-    @rightPad (
-) float roots// @lengthOf(
-,
-@calculatedFrom(	""// no comment"") i64
-u8x,
-} options { metadata = '0' ;_x = 4294967296 ; Packet
-    =
-    '0'
-;
-    }
-
-")).
-Eval vm_compute in ("<<<M1395>>>" ++ check (runes_of_ascii "options {
-    LittleEndian = true;
-}
-
-packet Logon {
-    u8 x,
-    string user,
-}
-
-packet Logout {
-    u16 reason,
-}
-
-packet Empty {
-}
-
-root packet Frame {
-    u16 MsgType,
-    u8 BodyLen @lengthOf(Body),
-    u8 flags,
-    Logon Body,
-    u32 trailer,
-}")).
-Eval vm_compute in ("<<<M1247>>>" ++ check (runes_of_ascii "options { LittleEndian // c2a
-  // c2b
-= // c3
-true
-    // c4
-; } root
-    // c7
-packet P // c9a
-  // c9b
-{ repeat char // c12a
-  // c12b
-cs // c13a
-  // c13b
-, // c14a
-  // c14b
-u8
-    // c15
-x
-    // c16
-, // c17
-}
-    // c18
-")).
-Eval vm_compute in ("<<<M1740>>>" ++ check (runes_of_ascii "
+Eval vm_compute in ("<<<M1486>>>" ++ check (runes_of_ascii "
 
   // top
-  packet  // c0a
-	  // c0b
 
-	body
-	    // c1
-	{i32	// c3
-f32a 
-	// c4
-    `{ , }`	// c5a
-    // c5b
-    	,	}
-    // c7
-options// c8a
+root	// c0
+packet  // c1
+	_x
+	    // c2
+{
+    match 
+    // c4
+  Foo// c5
+as  // c6a
 
-// c8b
-{  // c9
-  }  // c10a
-    // c10b
-")).
-Eval vm_compute in ("<<<M1467>>>" ++ check (runes_of_ascii "packet A{
-    match
-	k
-as	n{
-    [
+// c6b
+    Z9_
+    { 
+	// c8
+		""a	b""	// c9a
+    // c9b
+	:	// c10
+	Pad	// c11
+	  ,  
+      // c12
+	},	// c14
+repeat	// c15a
 
-    ""a"" ,
-22	,""c c""
-,
-    4 , ""e"" ,
-66
-, ""g""	,
-8 
-,
+// c15b
+		x`line1
+line2`
+        // c17
+	, // c18
+    @rightPad // c19a
+// c19b
+	(
+    // c20
 
-    ""i""  , 10	,
-""k""
+  ' '	// c21
+      )  // c22
+  @calculatedFrom(
+
+    ""a\\""  
+  // c24
+	) 	 // c25a
+// c25b
+    metadata	MetaDataX  
+      // c27
+
+	,
+    @tag( 
+    // c29
+      0
+) // c31
+	Logon	int 
+	// c33
+	  ``
+
+    // c34
     ,
-    12 ]
-    : B ,
+	    // c35
+		}  // c36
+    	options// c37
 
-    2
-    : 
-C } 
-,} ")).
-Eval vm_compute in ("<<<M418>>>" ++ check (runes_of_ascii "packet uint8x
-{ match pack
-    @rightPad msg_type	{
-    0123456789 :	float
-}
-,
-} packet //	t
-a1
-    { } options {packetx
-    = '\x00'	; u128= ""a	b""  ; }
+{  
+      // c38
+	  T  // c39
+=// c40a
+      // c40b
+
+'\x00'
+	}  // c42a
+    // c42b
+ 
 ")).
-Eval vm_compute in ("<<<M523>>>" ++ check (runes_of_ascii "packet uint8x
-{ match pack
-    as msg_type	{
-    0123456789 :	float
+Eval vm_compute in ("<<<M78>>>" ++ check (runes_of_ascii "options {
+Header	=u32; } options {
+i8i8	=
+    f64 ; body
+    =  zchar[
+// " ++ [128512]%N ++ runes_of_ascii " emoji
+/// triple
+00//
+] ; }
+    //
+    MetaData BodyLength  { // trailing space 
+}// " ++ [27880; 37322]%N ++ runes_of_ascii "
+options
+{ Logon= u64 As =
+    true i64_
+= '\x00' ;
+} root packet asx {
+@tag(
+// `tick` ""quote"" 'q'
+//	t
+4294967296
+    )
+    roots @lengthOf( A ) ,repeat uint8 u128
+    , int32 i64_  ,
+    u8 u `` ,
+@lengthOf(
+// c
+// c
+len ) uint64
+    //x
+    matchKey ,	match rootA
+    as stringy {
+1 : string_, 7 : charz , 255 : u128, [ // trailing space 
+0
+,0123456789 ,1,007  ]: len
+    , 10
+    :trueish } ,
+@rightPad	()
+    char[ 7] int //
+@lengthOf(
+x ) `two words`
+, }")).
+Eval vm_compute in ("<<<M1540>>>" ++ check (runes_of_ascii "packet pack {
+    u8 a1 `say ""hi""`,
+    @leftPad('\x00')
+    uint8 Logon `
+    `,
+    char[] lengthOf `" ++ [233]%N ++ runes_of_ascii "`,
+    //
+    //x
+    repeat char[] As,
+    @lengthOf(string_)
+    @calculatedFrom(""a\\"")
+    repeat u8x o,
+    char string_ @calculatedFrom(""a\""b"") `tab	here`,
+    repeat As {
+        char[0] i64_ @lengthOf(T) `" ++ [233]%N ++ runes_of_ascii "`,
+        char[4294967296] T @calculatedFrom(""\" ++ [233]%N ++ runes_of_ascii """),
+        trueish,
+        repeat int {
+            string Logon @calculatedFrom(""1""),
+            metadata,
+            uint32 Z9_,// " ++ [27880; 37322]%N ++ runes_of_ascii "
+        },
+    },
+    @tag(00)
+    //	t
+    i16 a1 `a\`,
+}")).
+Eval vm_compute in ("<<<M163>>>" ++ check (runes_of_ascii "options { As = // trailing space 
+zchar[ 4294967296] ; } //	t
+packet len // packet A { u8 x, }
+{ @lengthOf(
+_x) match
+    // c
+    lengthOf
+    as
+//
+// `tick` ""quote"" 'q'
+string_// c
+{
+    [ 4294967296 ]: i64_ ""a	b"": o
+,
 }
+, leftPad
+    @calculatedFrom( ""`tick`""	)
+// trailing space 
+// `tick` ""quote"" 'q'
+,@leftPad( '\x00' ) repeat charz /// triple
+msg_type
 ,
-} packet //	t
-a1
-    { } options {packetx
-    = '\x00'	; u128= MetaData  ; }
-")).
-Eval vm_compute in ("<<<M672>>>" ++ check (runes_of_ascii "// @lengthOf(
-packet i8i8 { u128 o , }
-options { MetaDataX = true;
-    BodyLength =""packet"" x_y_z= 007
-crc //x
-= ""abc"" ;
-    msg_type =
-@leftpad i16 }")).
-Eval vm_compute in ("<<<M448>>>" ++ check (runes_of_ascii "packet uint8x
-{ match pack
-    as msg_type	{
-    0123456789 :	float
-=
-,
-} packet //	t
-a1
-    { } options {packetx
-    = '\x00'	; u128= ""a	b""  ; }
-")).
-Eval vm_compute in ("<<<M485>>>" ++ check (runes_of_ascii "packet uint8x
-{ match pack
-    as msg_type	{
-    0123456789 :	float
+repeat i8
+Foo , }packet msg_type {
+//x
+// @lengthOf(
+@leftPad (
+'0'
+)
+u64 repeatCount @calculatedFrom(
+""" ++ [28040; 24687]%N ++ runes_of_ascii """) ,// packet A { u8 x, }
 }
-,
-} packet //	t
-a1
-    { } options packetx
-    = '\x00'	; u128= ""a	b""  ; }
 ")).
-Eval vm_compute in ("<<<M667>>>" ++ check (runes_of_ascii "// @lengthOf(
-packet i8i8 { u128 o char }
-options { MetaDataX = true;
-    BodyLength =""packet"" x_y_z= 007
-crc //x
-= ""abc"" ;
-    msg_type =
-i16 }")).
-Eval vm_compute in ("<<<M677>>>" ++ check (runes_of_ascii "// @lengthOf(
-packet i8i8 { u128 o , }
-options { MetaDataX = true;
-    BodyLength =""packet"" x_y_z 007 =
-crc //x
-= ""abc"" ;
-    msg_type =
-i16 }")).
-Eval vm_compute in ("<<<M692>>>" ++ check (runes_of_ascii "// @lengthOf(
-packet i8i8 { u128 o , }
-options { MetaDataX = true;
-    BodyLength =""packet"" x_y_z= 007
-u8 //x
-= ""abc"" ;
-    msg_type =
-i16 }")).
-Eval vm_compute in ("<<<M524>>>" ++ check (runes_of_ascii "packet uint8x
-{ match pack
-    as msg_type	{
-    0123456789 :	float
-}
+Eval vm_compute in ("<<<M48>>>" ++ check (runes_of_ascii "root	packet Logon { @calculatedFrom( """" ) @lengthOf( int ) @tag( 3
+) match _x
+as // a // b
+i64_ { 10:asx
+// `tick` ""quote"" 'q'
+/// triple
+""" ++ [128512]%N ++ runes_of_ascii """ : crc ,[ 0
 ,
-} packet //	t
-a1
-    { } options {packetx
-    = '\x00'	; u128=")).
-Eval vm_compute in ("<<<M304>>>" ++ check (runes_of_ascii "packet
+007
+] : float  ,// trailing space 
+}
+    , repeat //	t
+uint16
+leftPad  ,
+    }
     // " ++ [27880; 37322]%N ++ runes_of_ascii "
-    Logon {
-repeatCount @lengthOf( roots ) , @tag(0) repeat zchar[007] crc , rootA a1 `{ , }` , string_ `" ++ [233]%N ++ runes_of_ascii "`
-,  }
+    packet charz
+{  } MetaData
+int {
+//
+// trailing space 
+zchar[ 4294967296 ]matchKey
+,
+asx rootA
+    `doc`
+, Foo string_ `// not a comment`
+,
+    char[]u8x , // `tick` ""quote"" 'q'
+roots
+float , }
 ")).
-Eval vm_compute in ("<<<M1194>>>" ++ check (runes_of_ascii "// top
-packet // c0
-body // c1
-{ // c2
-i32 // c3
-f32a // c4
-`{ , }` // c5
-, // c6
-} // c7
-options // c8
-{ // c9
-} // c10
-")).
-Eval vm_compute in ("<<<M1159>>>" ++ check (runes_of_ascii "MetaData leftPad { chars MetaDataX , } packet repeatCount // c
-{ char[ 255 ] uint8x `" ++ [233]%N ++ runes_of_ascii "` , } MetaData pack { As Foo , }")).
-Eval vm_compute in ("<<<M218>>>" ++ check (runes_of_ascii "
-MetaData
-uint8x { char[ 007
-    ]leftPad ,Pad
-T ,u64 BodyLength , char[] int  ,float
-Z9_ , float32 metadata
-    , }
-")).
-Eval vm_compute in ("<<<M315>>>" ++ check (runes_of_ascii "packet Foo{ tag roots ,
-    // `tick` ""quote"" 'q'
-    i64_, @calculatedFrom( ""packet"" ) uint32 MetaDataX
-, }
-")).
-Eval vm_compute in ("<<<M1455>>>" ++ check (runes_of_ascii "
-root 
+Eval vm_compute in ("<<<M1575>>>" ++ check (runes_of_ascii "MetaData BodyLength {
+    zchar[65535] As `crlf
+        line`,
+    u16 charz,
+    body len,
+    zchar msg_type,
+    uint64 metadata,
+}
+
+root packet matchKey {
+    repeat i8i8 `{ , }`,
+}
+
+MetaData a1 {
+    i8i8 Pad `it's`,
+    int64 roots `doc`,
+    Foo BodyLength `u8 x,`,
+}
+
+packet _x {
+    lengthOf {
+        pack `" ++ [28040; 24687; 31867; 22411]%N ++ runes_of_ascii "`,
+        string_,
+        repeat rootA len,
+        zchar[1] u8x,
+    },
+}")).
+Eval vm_compute in ("<<<M1783>>>" ++ check (runes_of_ascii "
 packet
-	SimpleMessage	{uint16 MsgType 
-`" ++ [28040; 24687; 31867; 22411]%N ++ runes_of_ascii "`,
+
+    tag
+    { 
+}
+packet
+
+    falsey
+{
 	string
+    charz	@lengthOf(zchar)
 
-    JsonBody
+    , 
+string // trailing space 
+    u 
+@calculatedFrom(
+""" ++ [233]%N ++ runes_of_ascii "t" ++ [233]%N ++ runes_of_ascii """
+	)
+`// not a comment` ,@leftPad
+    ('0' )
+char[]
+leftPad@calculatedFrom(
+""a	b""
+	) `// not a comment`
+,
 
-`Json" ++ [23383; 31526; 20018; 28040; 24687; 20307]%N ++ runes_of_ascii "` ,
+    @calculatedFrom(
+
+    ""`tick`"")
+
+    @lengthOf(
+
+roots) repeat MetaDataX
+
+,
+
+    }
+")).
+Eval vm_compute in ("<<<M1476>>>" ++ check (runes_of_ascii "packet a1 {
+    @leftPad()
+    float @lengthOf(uint8x),
+}
+
+packet Logon {
+    char Logon @calculatedFrom(""a\\""),
+    T stringy,
+    //
+    // c
+    repeat uint8 stringy `two words`,
+}
+
+MetaData charz {
+    u tag `
+        `,
+    a1 falsey,
+    Z9_ matchKey,
+    f64 lengthOf `a\`,
+    f32a roots ``,
+    float64 x_y_z,
+}")).
+Eval vm_compute in ("<<<M1308>>>" ++ check (runes_of_ascii "packet A {
+    u8 a,
+}
+packet B {
+    u16 b,
+}
+packet C {
+    u32 c,
+}
+root packet M {
+    u16 Kc, u16 Kb, u16 Ka,
+    match Kc as X {
+        9 : A,
+        10 : B,
+    },
+    match Kb as Y {
+        2 : C,
+        1 : A,
+    },
+    match Ka as Z {
+        1 : B,
+    },
+    A, B, C,
+}
+")).
+Eval vm_compute in ("<<<M80>>>" ++ check (runes_of_ascii "packet
+    len { // trailing space 
+repeat zchar f32a `// not a comment` , @tag( 255 )repeat  Pad { x T
+, } , @calculatedFrom(
+""{,}"") repeat
+    // a // b
+    leftPad { u64 u8x `tab	here` ,o Packet
+    ,char[] chars , } , @tag( 3 )float64
+    i8i8 , }
+")).
+Eval vm_compute in ("<<<M183>>>" ++ check (runes_of_ascii "root
+packet tag {
+@calculatedFrom(
+""{,}""
+    // `tick` ""quote"" 'q'
+    )
+@tag(
+//x
+// " ++ [27880; 37322]%N ++ runes_of_ascii "
+42
+    )
+    i64_ @lengthOf( calculatedFrom ) , zchar[// " ++ [128512]%N ++ runes_of_ascii " emoji
+3 // @lengthOf(
+] int  , } root// c
+packet Foo { }
+// @lengthOf(
+")).
+Eval vm_compute in ("<<<M1689>>>" ++ check (runes_of_ascii "packet
+    T {
+int
+
+u
+,
+    @calculatedFrom(	""\" ++ [233]%N ++ runes_of_ascii """  ) // `tick` ""quote"" 'q'
+    repeat 	 // @lengthOf(
+string x_y_z  // a // b
+	  ,uint32	// `tick` ""quote"" 'q'
+  int
+    `crlf
+line`
+, 
+}
+")).
+Eval vm_compute in ("<<<M1935>>>" ++ check (runes_of_ascii "// top
+options {
+    f32a = 0
+}// c5
+
+packet trueish {
+}
+
+MetaData _x {
+    char[0123456789] zchar,
+    string crc,
+    char[1] options1,
+    uint8 repeatCount,
+}// c29")).
+Eval vm_compute in ("<<<M396>>>" ++ check (runes_of_ascii "packet uint8x uint8x
+{ match pack
+    as msg_type	{
+    0123456789 :	float
+}
+,
+} packet //	t
+a1
+    { } options {packetx
+    = '\x00'	; u128= ""a	b""  ; }
+")).
+Eval vm_compute in ("<<<M513>>>" ++ check (runes_of_ascii "packet uint8x
+{ match pack
+    as msg_type	{
+    0123456789 :	float
+}
+,
+} packet //	t
+a1
+    { } options {packetx
+    = '\x00'	; float32= ""a	b""  ; }
+")).
+Eval vm_compute in ("<<<M463>>>" ++ check (runes_of_ascii "packet uint8x
+{ match pack
+    as msg_type	{
+    0123456789 :	float
+}
+,
+} float32 //	t
+a1
+    { } options {packetx
+    = '\x00'	; u128= ""a	b""  ; }
+")).
+Eval vm_compute in ("<<<M467>>>" ++ check (runes_of_ascii "packet uint8x
+{ match pack
+    as msg_type	{
+    0123456789 :	float
+}
+,
+} packet //	t
+{
+    a1 } options {packetx
+    = '\x00'	; u128= ""a	b""  ; }
+")).
+Eval vm_compute in ("<<<M515>>>" ++ check (runes_of_ascii "packet uint8x
+{ match pack
+    as msg_type	{
+    0123456789 :	float
+}
+,
+} packet //	t
+a1
+    { } options {packetx
+    = '\x00'	; u128 ""a	b""  ; }
+")).
+Eval vm_compute in ("<<<M398>>>" ++ check (runes_of_ascii "packet [
+{ match pack
+    as msg_type	{
+    0123456789 :	float
+}
+,
+} packet //	t
+a1
+    { } options {packetx
+    = '\x00'	; u128= ""a	b""  ; }
+")).
+Eval vm_compute in ("<<<M120>>>" ++ check (runes_of_ascii "packet float {@calculatedFrom(
+// " ++ [128512]%N ++ runes_of_ascii " emoji
+// packet A { u8 x, }
+""CRC32"" )Foo `" ++ [28040; 24687; 31867; 22411]%N ++ runes_of_ascii "`	,@calculatedFrom( ""a\\"" )
+    zchar[ 0 ]	msg_type `doc` , }")).
+Eval vm_compute in ("<<<M71>>>" ++ check (runes_of_ascii "root packet MetaDataX
+{repeat u8x len `" ++ [28040; 24687; 31867; 22411]%N ++ runes_of_ascii "`,
+As { u8x
+, } , int f32a
+`" ++ [233]%N ++ runes_of_ascii "`, @lengthOf( float ) Z9_
+// @lengthOf(
+// trailing space 
+`a\` , }")).
+Eval vm_compute in ("<<<M1522>>>" ++ check (runes_of_ascii "  packet A	{
+match k	as
+n
+	{	[
+	1 
+, 
+22  , 
+007
+,
+
+    4, 5
+    ,
+
+    66 ,
+	7  ,  8,	9
+
+    ,
+10 ]
+: 
+B,	2 :C
 
     }
 
+, 
+}
 ")).
-Eval vm_compute in ("<<<M373>>>" ++ check (runes_of_ascii "  MetaData leftPad { /// triple
-char[] body,  As options1
-//
+Eval vm_compute in ("<<<M1731>>>" ++ check (runes_of_ascii "MetaData leftPad {
+    chars MetaDataX,
+}
+
+// c
+packet repeatCount {
+    char[255] uint8x `" ++ [233]%N ++ runes_of_ascii "`,
+}
+
+MetaData pack {
+    As Foo,
+}")).
+Eval vm_compute in ("<<<M1143>>>" ++ check (runes_of_ascii "MetaData // c
+leftPad { chars MetaDataX , } packet repeatCount { char[ 255 ] uint8x `" ++ [233]%N ++ runes_of_ascii "` , } MetaData pack { As Foo , }")).
+Eval vm_compute in ("<<<M1175>>>" ++ check (runes_of_ascii "MetaData leftPad { chars MetaDataX , } packet repeatCount { char[ 255 ] uint8x `" ++ [233]%N ++ runes_of_ascii "` , } // c
+MetaData pack { As Foo , }")).
+Eval vm_compute in ("<<<M346>>>" ++ check (runes_of_ascii "MetaData chars {
+x_y_z
 /// triple
-,
-o
-    //x
-    i64_
-, }
-")).
-Eval vm_compute in ("<<<M1569>>>" ++ check (runes_of_ascii "packet A 
-{
-match k	as
-n  { 
-[ 1 
-,
-22  ,	""c c"" 
-,4
-    ,
-	5
-	,	""f"", 7]:  B  2 : C
-	}
-,
-}
-")).
-Eval vm_compute in ("<<<M563>>>" ++ check (runes_of_ascii "
-packet
-    asx { {match u128 as lengthOf
-{
-//	t
-// `tick` ""quote"" 'q'
-255 : x ,
-    } ,	}")).
-Eval vm_compute in ("<<<M69>>>" ++ check (runes_of_ascii "//
-packet metadata
-{ }	MetaData chars
-//x
-//	t
-{
-    char[ 42	] leftPad `crlf
-line`  ,
+/// triple
+x
+    `line1
+line2` ,_x A`// not a comment`,	} // `tick` ""quote"" 'q'")).
+Eval vm_compute in ("<<<M911>>>" ++ check (runes_of_ascii "packet A {
+  match k as n {
+    [""a"", 22, ""c c"", 4, ""e"", 66, ""g"", 8, ""i"", 10, ""k"", 12] : B
+    2 : C
+  },
 }")).
-Eval vm_compute in ("<<<M1627>>>" ++ check (runes_of_ascii "
-packet A	{	match k as
+Eval vm_compute in ("<<<M1915>>>" ++ check (runes_of_ascii "  packet
+    A{match k 
+as
+n
 
-    n
-{ 
-[""a""
-, ""bb""
-	, 
-007]
+    { 
+[ ""a""
+	, ""bb"", 007,
+    ""d""]
 	:
-	B,
-2
-    :	C
 
-}
+    B
 
-    , }
+,
+	2 : C
+
+    }
+,}
+
 ")).
-Eval vm_compute in ("<<<M1576>>>" ++ check (runes_of_ascii "packet A {
-    match k as n {
-        [""a"", ""bb"", ""c c""] : B,
-        2 : C,
-    },
-}")).
-Eval vm_compute in ("<<<M848>>>" ++ check (runes_of_ascii "packet A {
-  match k as n {
-    [1, 22, ""c c"", 4, 5, ""f"", 7] : B
-    2 : C
-  },
-}")).
-Eval vm_compute in ("<<<M820>>>" ++ check (runes_of_ascii "packet A {
-  match k as n {
-    [""a"", 22, ""c c"", 4, ""e""] : B
-    2 : C
-  },
-}")).
-Eval vm_compute in ("<<<M601>>>" ++ check (runes_of_ascii "
+Eval vm_compute in ("<<<M620>>>" ++ check (runes_of_ascii "
 packet
     asx {match u128 as lengthOf
 {
 //	t
 // `tick` ""quote"" 'q'
-255")).
-Eval vm_compute in ("<<<M1283>>>" ++ check (runes_of_ascii "root packet P {
-    u16 a,
-    u32 Sum @calculatedFrom(""CR\
-C32""),
-}
-")).
-Eval vm_compute in ("<<<M788>>>" ++ check (runes_of_ascii "packet A {
+255 : x ,
+    } @lengthOf(	}")).
+Eval vm_compute in ("<<<M862>>>" ++ check (runes_of_ascii "packet A {
   match k as n {
-    [1, 22, 007] : B
+    [""a"", ""bb"", 007, ""d"", ""e"", 66, ""g"", ""h""] : B,
     2 : C
   },
 }")).
-Eval vm_compute in ("<<<M939>>>" ++ check (runes_of_ascii "MetaData M {
-    u8 x `a
-    b
-  c`,
-    T t `a
-    b
-  c`,
+Eval vm_compute in ("<<<M598>>>" ++ check (runes_of_ascii "
+packet
+    asx {match u128 as lengthOf
+{
+//	t
+// `tick` ""quote"" 'q'
+255 : : x ,
+    } ,	}")).
+Eval vm_compute in ("<<<M579>>>" ++ check (runes_of_ascii "
+packet
+    asx {match u128 lengthOf as
+{
+//	t
+// `tick` ""quote"" 'q'
+255 : x ,
+    } ,	}")).
+Eval vm_compute in ("<<<M595>>>" ++ check (runes_of_ascii "
+packet
+    asx {match u128 as lengthOf
+{
+//	t
+// `tick` ""quote"" 'q'
+: : x ,
+    } ,	}")).
+Eval vm_compute in ("<<<M836>>>" ++ check (runes_of_ascii "packet A {
+  match k as n {
+    [""a"", ""bb"", 007, ""d"", ""e"", 66] : B,
+    2 : C
+  },
 }")).
-Eval vm_compute in ("<<<M1088>>>" ++ check (runes_of_ascii "packet A { @tag(1) // a
- @leftPad('0') // b
- char[4] x, }")).
-Eval vm_compute in ("<<<M1201>>>" ++ check (runes_of_ascii "packet body // c
-{ i32 f32a `{ , }` , } options { }")).
-Eval vm_compute in ("<<<M654>>>" ++ check (runes_of_ascii "// @lengthOf(
-packet i8i8 { u128 o , }
-options {")).
-Eval vm_compute in ("<<<M957>>>" ++ check (runes_of_ascii "MetaData M {
-    u8 x `
-x`,
-    T t `
-x`,
-}")).
-Eval vm_compute in ("<<<M1067>>>" ++ check (runes_of_ascii "packet A {    u8 x, // c    u8 y,}")).
-Eval vm_compute in ("<<<M179>>>" ++ check (runes_of_ascii "// `tick` ""quote"" 'q'
-options {}")).
-Eval vm_compute in ("<<<M1013>>>" ++ check (runes_of_ascii "packet A {
- u8 x `d" ++ [8232]%N ++ runes_of_ascii "`, // c" ++ [8232]%N ++ runes_of_ascii "
-}")).
-Eval vm_compute in ("<<<M947>>>" ++ check (runes_of_ascii "packet A {
-    u8 x `x
-`,
-}")).
-Eval vm_compute in ("<<<M414>>>" ++ check (runes_of_ascii "packet uint8x
-{ match")).
-Eval vm_compute in ("<<<M211>>>" ++ check (runes_of_ascii "MetaData
-roots {
-}
+Eval vm_compute in ("<<<M1292>>>" ++ check (runes_of_ascii "
+
+  root
+    packet
+
+P
+
+    {
+	u8
+	s_u8,  repeat  u8 r_u8  , u16
+    b_len, }
 
 ")).
-Eval vm_compute in ("<<<M987>>>" ++ check (runes_of_ascii "// c" ++ [160]%N ++ runes_of_ascii "
-packet A {
+Eval vm_compute in ("<<<M743>>>" ++ check (runes_of_ascii "int16 zchar[ } `doc` char u16 uint16 true false u8 msg_type """ ++ [233]%N ++ runes_of_ascii "t" ++ [233]%N ++ runes_of_ascii """ ""a\\"" pack")).
+Eval vm_compute in ("<<<M890>>>" ++ check (runes_of_ascii "packet A { Inner { match k as n { [1,22,007,4,5,66,7,8,9,10] : B, }, }, }")).
+Eval vm_compute in ("<<<M800>>>" ++ check (runes_of_ascii "packet A {
+  match k as n {
+    [1, 22, 007, 4] : B,
+    2 : C
+  },
 }")).
-Eval vm_compute in ("<<<M1232>>>" ++ check (runes_of_ascii "packet x { } // c
+Eval vm_compute in ("<<<M167>>>" ++ check (runes_of_ascii "packet msg_type { repeat// " ++ [27880; 37322]%N ++ runes_of_ascii "
+zchar[  007] Logon `two words`, }
 ")).
-Eval vm_compute in ("<<<M1231>>>" ++ check (runes_of_ascii "packet x {
+Eval vm_compute in ("<<<M439>>>" ++ check (runes_of_ascii "packet uint8x
+{ match pack
+    as msg_type	{
+    0123456789")).
+Eval vm_compute in ("<<<M1560>>>" ++ check (runes_of_ascii "
+root packet P
+{
+hdr {
+
+    u8
+
+a  , } , 
+u8 x ,
+	}")).
+Eval vm_compute in ("<<<M1209>>>" ++ check (runes_of_ascii "packet body { i32 f32a `{ , }` // c
+, } options { }")).
+Eval vm_compute in ("<<<M693>>>" ++ check (runes_of_ascii "// @lengthOf(
+packet i8i8 { u128 o , }
+options")).
+Eval vm_compute in ("<<<M337>>>" ++ check (runes_of_ascii "//	t
+options
 // c
+// " ++ [128512]%N ++ runes_of_ascii " emoji
+{
+    } // c")).
+Eval vm_compute in ("<<<M708>>>" ++ check (runes_of_ascii "// @lengthOf(
+packet i8i8 { u128 o ,")).
+Eval vm_compute in ("<<<M1284>>>" ++ check (runes_of_ascii "root packet P {
+    string s,
+}
+")).
+Eval vm_compute in ("<<<M1038>>>" ++ check (runes_of_ascii "packet A {
+ u8 x `d" ++ [12]%N ++ runes_of_ascii "`, // c" ++ [12]%N ++ runes_of_ascii "
 }")).
-Eval vm_compute in ("<<<M255>>>" ++ check (runes_of_ascii " /// triple")).
-Eval vm_compute in ("<<<M726>>>" ++ check (runes_of_ascii "
-	 ")).
+Eval vm_compute in ("<<<M713>>>" ++ check (runes_of_ascii "// @lengthOf(
+packet i8i8")).
+Eval vm_compute in ("<<<M1791>>>" ++ check (runes_of_ascii "
+MetaData
+i64_
+
+{
+	}
+
+")).
+Eval vm_compute in ("<<<M170>>>" ++ check (runes_of_ascii "packet pack
+{
+} 	 ")).
+Eval vm_compute in ("<<<M1006>>>" ++ check (runes_of_ascii "packet A {
+}
+// c" ++ [8202]%N)).
+Eval vm_compute in ("<<<M571>>>" ++ check (runes_of_ascii "
+packet
+    asx {")).
+Eval vm_compute in ("<<<M1663>>>" ++ check (runes_of_ascii "packet A {
+}// c")).
+Eval vm_compute in ("<<<M750>>>" ++ check (runes_of_ascii "uk%W,3^r>l")).
+Eval vm_compute in ("<<<M293>>>" ++ check (runes_of_ascii "  
+
+")).
